@@ -113,6 +113,64 @@ def POST_INSTANTIATE(sm, cls):
 """, [["drv", "s1", [["on_go", "s0"], ["on_go", "s0"], ["peer", "drv", "s1"]]],
       ["drv", "s2", [["on_go", "s1"], ["on_go", "s1"], ["peer", "drv", "s2"]]]])
 
+d("guard-named-like-foreign-state", HEAD + """
+class Dup(StateMachine):
+    t0 = State(initial=True)
+    t1 = State()
+    t2 = State()
+    go = t0.to(t1, cond='s1', on='s2') | t1.to(t2) | t2.to(t0)
+    def s1(self):
+        REC.append(('s1',))
+        return True
+    def s2(self):
+        REC.append(('s2',))
+        return 'act'
+""", [["act", "t1", [["s1"], ["s2"]]], [None, "t2", []]],
+  struct={"states": ["t0", "t1", "t2"],
+          "trans": {"t0": [["go", "t1"]], "t1": [["go", "t2"]], "t2": [["go", "t0"]]},
+          "events": ["go"]})
+d("expression-guard-after-rejected-instance", HEAD + """
+from statemachine.exceptions import InvalidDefinition
+class Dup(StateMachine):
+    s0 = State(initial=True)
+    s1 = State()
+    s2 = State()
+    go = s0.to(s1, cond='ok and ready') | s1.to(s2) | s2.to(s0)
+class Good:
+    state = None
+    ok = True
+    @property
+    def ready(self):
+        REC.append(('ready',))
+        return True
+class Bad:
+    state = None
+    ok = True
+def INSTANTIATE(cls):
+    try:
+        cls(Bad())
+        raise AssertionError('a model without `ready` must be rejected')
+    except InvalidDefinition:
+        pass
+    return cls(Good())
+""", [[None, "s1", [["ready"]]], [None, "s2", []]])
+d("model-with-instance-hooks", HEAD + """
+class Dup(StateMachine):
+    s0 = State(initial=True)
+    s1 = State()
+    s2 = State()
+    go = s0.to(s1) | s1.to(s2) | s2.to(s0)
+class Doc:
+    def __init__(self, hook):
+        self.state = None
+        if hook:
+            self.after_go = lambda: REC.append(('after_go',))
+def INSTANTIATE(cls):
+    first = cls(Doc(False))          # same model class, no instance-level hook
+    first.send('go')
+    return cls(Doc(True))
+""", [[None, "s1", [["after_go"]]], [None, "s2", [["after_go"]]]])
+
 STRUCT = {"states": ["s0", "s1", "s2"],
           "trans": {"s0": [["go", "s1"]], "s1": [["go", "s2"]], "s2": [["go", "s0"]]},
           "events": ["go"]}
@@ -139,7 +197,12 @@ class Inst:
 
     def instantiate(self):
         ls = [c() for c in self.ns.get("LISTENERS", [])]
-        self.sm = self.cls(listeners=ls) if ls else self.cls()
+        custom = self.ns.get("INSTANTIATE")
+        if custom:
+            self.sm = custom(self.cls)
+            del self.rec[:]
+        else:
+            self.sm = self.cls(listeners=ls) if ls else self.cls()
         post = self.ns.get("POST_INSTANTIATE")
         if post:
             post(self.sm, self.cls)
@@ -175,7 +238,7 @@ class Inst:
         if self.obs != exp:
             return f"observations {self.obs} expected {exp}"
         st = self.structure()
-        want = dict(STRUCT, allowed=["go"])
+        want = dict(self.spec.get("struct", STRUCT), allowed=["go"])
         if st != want:
             return f"structure {st} expected {want}"
         return None
